@@ -1243,3 +1243,79 @@ Proof.
   - now apply position_spec.
   - now apply position_none.
 Qed.
+
+(* ------------------------------------------------------------------ to_string accepts exactly well-formed UTF-8 *)
+Lemma inr_rng lo hi b : inr lo hi b = true <-> rng lo hi b.
+Proof. unfold inr, rng. lia. Qed.
+
+Lemma utf8_valid_wf_fuel n : forall l, (length l <= n)%nat -> utf8_valid l = true -> wf_utf8 l.
+Proof.
+  induction n as [|n IH]; intros l HL.
+  - destruct l; [intros _; constructor | cbn in HL; lia].
+  - destruct l as [|a r]; [intros _; constructor|].
+    cbn [length] in HL. cbn [utf8_valid]. destruct (b2n a <? 128) eqn:E1.
+    { intros H. change (a :: r) with ([a] ++ r). constructor.
+      - apply wf1. unfold rng. lia.
+      - apply IH; [lia | exact H]. }
+    destruct r as [|b r2]; [discriminate|]. cbn [length] in HL.
+    destruct (inr 194 223 a) eqn:E2.
+    { intros H. apply andb_true_iff in H as [Hb Hr].
+      change (a :: b :: r2) with ([a; b] ++ r2). constructor.
+      - apply wf2; now apply inr_rng.
+      - apply IH; [lia | exact Hr]. }
+    destruct r2 as [|c r3]; [discriminate|]. cbn [length] in HL.
+    destruct (lead3 a b) eqn:E3.
+    { intros H. apply andb_true_iff in H as [Hc Hr].
+      assert (Hr' : wf_utf8 r3) by (apply IH; [lia | exact Hr]).
+      apply inr_rng in Hc.
+      change (a :: b :: c :: r3) with ([a; b; c] ++ r3). constructor; [|exact Hr'].
+      unfold lead3, cont in E3.
+      repeat rewrite orb_true_iff in E3. repeat rewrite andb_true_iff in E3.
+      repeat rewrite inr_rng in E3.
+      destruct E3 as [[[[A B]|[A B]]|[A B]]|[A B]];
+        [now apply wf3_e0 | now apply wf3_e1 | now apply wf3_ed | now apply wf3_ee]. }
+    destruct r3 as [|d r4]; [discriminate|]. cbn [length] in HL.
+    intros H. apply andb_true_iff in H as [H Hr]. apply andb_true_iff in H as [H Hd].
+    apply andb_true_iff in H as [E4 Hc].
+    assert (Hr' : wf_utf8 r4) by (apply IH; [lia | exact Hr]).
+    apply inr_rng in Hc. apply inr_rng in Hd.
+    change (a :: b :: c :: d :: r4) with ([a; b; c; d] ++ r4). constructor; [|exact Hr'].
+    unfold lead4, cont in E4.
+    repeat rewrite orb_true_iff in E4. repeat rewrite andb_true_iff in E4.
+    repeat rewrite inr_rng in E4.
+    destruct E4 as [[[A B]|[A B]]|[A B]];
+      [now apply wf4_f0 | now apply wf4_f1 | now apply wf4_f4].
+Qed.
+
+Ltac decide_ifs :=
+  repeat match goal with
+         | |- context [if ?g then _ else _] =>
+             let E := fresh "E" in
+             first [ assert (E : g = true) by lia; rewrite E; clear E
+                   | assert (E : g = false) by lia; rewrite E; clear E ]
+         end.
+
+Lemma wf_utf8_valid l : wf_utf8 l -> utf8_valid l = true.
+Proof.
+  induction 1 as [|s r Hs Hr IH]; [reflexivity|].
+  destruct Hs; cbn [app utf8_valid]; unfold lead3, lead4, cont, inr, rng in *;
+    decide_ifs; rewrite ?IH; lia.
+Qed.
+
+Lemma utf8_valid_spec_lemma l : utf8_valid l = true <-> wf_utf8 l.
+Proof.
+  split; [apply (utf8_valid_wf_fuel (length l)); lia | apply wf_utf8_valid].
+Qed.
+
+Lemma to_string_spec_lemma dbg be root c :
+  match snd (step dbg be root c CToString) with
+  | Ok (VBytes bs) => bs = bytes c /\ wf_utf8 (bytes c)
+  | Err EBadUtf8 => ~ wf_utf8 (bytes c)
+  | _ => False
+  end.
+Proof.
+  rewrite step_spec. cbn [spec_step snd].
+  destruct (utf8_valid (bytes c)) eqn:E.
+  - split; [reflexivity | now apply utf8_valid_spec_lemma].
+  - intros H. apply utf8_valid_spec_lemma in H. congruence.
+Qed.
